@@ -26,7 +26,7 @@ func rngs(rs []*block.Range) [][]uint64 {
 func segRecord(sz, init, end uint64) map[string]any {
 	rec := map[string]any{"k": "seg", "sz": sz, "init": init, "end": end, "panic": "",
 		"first": 0, "last": 0, "count": 0, "segs": [][]uint64{}, "below": []uint64{}, "above": []uint64{}, "above2": []uint64{},
-		"ifs": []int{}, "ife": []int{}, "eoi": []bool{}}
+		"ifs": []int{}, "ife": []int{}, "eoi": []bool{}, "eoi_panic": ""}
 	rec["panic"] = guard(func() {
 		s := block.NewSegmenter(sz, init, end)
 		first, last := s.FirstIndex(), s.LastIndex()
@@ -35,7 +35,12 @@ func segRecord(sz, init, end uint64) map[string]any {
 		eoi := []bool{}
 		for i := first; i <= last && i < first+4096; i++ {
 			segs = append(segs, rng(s.Range(i)))
-			eoi = append(eoi, s.EndsOnInterval(i))
+			// EndsOnInterval dereferences Range(i): a missing segment must not hide the rest of the record
+			e := false
+			if p := guard(func() { e = s.EndsOnInterval(i) }); p != "" && rec["eoi_panic"] == "" {
+				rec["eoi_panic"] = p
+			}
+			eoi = append(eoi, e)
 		}
 		rec["segs"], rec["eoi"] = segs, eoi
 		rec["below"] = rng(s.Range(first - 1))
